@@ -78,7 +78,10 @@ func (p *publisher) publishUpdates(reqs requests) {
 	batchedUpdates := make(map[uint64]*pb.KVList)
 	for _, req := range reqs {
 		for _, e := range req.Entries {
-			ids := p.indexer.Get(e.Key)
+			// Match patterns against the user key. e.Key carries the 8-byte timestamp suffix,
+			// whose leading bytes are 0xff for every realistic version, so a pattern longer
+			// than the user key ("a\xff") would otherwise match the key "a".
+			ids := p.indexer.Get(y.ParseKey(e.Key))
 			if len(ids) == 0 {
 				continue
 			}
